@@ -11,6 +11,7 @@ import Driver.DScalars
 import Driver.D21
 import Driver.D22
 import Driver.D08
+import Driver.DFromCst
 import Driver.D12
 import Driver.D13
 import Driver.D14
@@ -48,6 +49,7 @@ def dispatch (line : String) : String :=
     else if stream ∈ ["scalars"] then cScalars stream fs
     else if stream ∈ ["guard", "sort", "fragcycle", "inputguard", "dirguard"] then c21 stream fs
     else if stream ∈ ["unusedvars", "restore"] then c22 stream fs
+    else if stream == "c08.fromcst" then cFromCst stream fs
     else if stream.startsWith "c08." then c08 stream fs
     else if stream.startsWith "c12." then c12 stream fs
     else if stream.startsWith "c13." then c13 stream fs
